@@ -699,10 +699,15 @@ Proof.
     [exact E1 | exact Lit1].
 Qed.
 
+Ltac noifF t := lazymatch t with context [if _ then _ else _] => fail | _ => idtac end.
 Lemma Rmin3 x y z : Rmin (Rmin x y) z = Rmin (Rmin z y) x.
-Proof. unfold Rmin; repeat match goal with |- context [Rle_dec ?a ?b] => destruct (Rle_dec a b) end; lra. Qed.
+Proof.
+  unfold Rmin; repeat match goal with |- context [Rle_dec ?a ?b] => noifF a; noifF b; destruct (Rle_dec a b) end; lra.
+Qed.
 Lemma Rmax3 x y z : Rmax (Rmax x y) z = Rmax (Rmax z y) x.
-Proof. unfold Rmax; repeat match goal with |- context [Rle_dec ?a ?b] => destruct (Rle_dec a b) end; lra. Qed.
+Proof.
+  unfold Rmax; repeat match goal with |- context [Rle_dec ?a ?b] => noifF a; noifF b; destruct (Rle_dec a b) end; lra.
+Qed.
 
 Lemma NilMinRN_comm x y : NilMinRN x y = NilMinRN y x.
 Proof. unfold NilMinRN. now rewrite (Rplus_comm y x), (Rmin_comm y x). Qed.
@@ -718,12 +723,12 @@ Proof.
   unfold unit. intros Fz Ux Uy Uz.
   assert (Z1 : RN (0 + z) = z) by (rewrite Rplus_0_l; now apply RN_id).
   unfold NilMinRN at 2. destruct (Rlt_dec 1 (RN (x + y))) as [A | A].
-  - unfold Rmin at 2 3. destruct (Rle_dec x y) as [O | O].
+  - destruct (Rle_dec x y) as [O | O].
     + assert (M : RN (x + z) <= RN (y + z)) by (apply RN_le; lra).
-      unfold NilMinRN. destruct (Rlt_dec 1 (RN (x + z))) as [B | B]; [| reflexivity].
+      rewrite (Rmin_left x y O). unfold NilMinRN. destruct (Rlt_dec 1 (RN (x + z))) as [B | B]; [| reflexivity].
       destruct (Rlt_dec 1 (RN (y + z))) as [C | C]; [reflexivity | exfalso; lra].
     + assert (M : RN (y + z) <= RN (x + z)) by (apply RN_le; lra).
-      unfold NilMinRN. destruct (Rlt_dec 1 (RN (y + z))) as [C | C].
+      rewrite (Rmin_right x y) by lra. unfold NilMinRN. destruct (Rlt_dec 1 (RN (y + z))) as [C | C].
       * destruct (Rlt_dec 1 (RN (x + z))) as [B | B]; [reflexivity | exfalso; lra].
       * destruct (Rlt_dec 1 (RN (x + z))); reflexivity.
   - unfold NilMinRN. rewrite Z1. destruct (Rlt_dec 1 z); [exfalso; lra | reflexivity].
@@ -736,13 +741,13 @@ Proof.
   unfold unit. intros Ux Uy Uz.
   assert (Z1 : 1 <= RN (1 + z)) by (apply RN_ge; [apply fmt_1 | lra]).
   unfold NilMaxRN at 2. destruct (Rlt_dec (RN (x + y)) 1) as [A | A].
-  - unfold Rmax at 2 3. destruct (Rle_dec x y) as [O | O].
+  - destruct (Rle_dec x y) as [O | O].
     + assert (M : RN (x + z) <= RN (y + z)) by (apply RN_le; lra).
-      unfold NilMaxRN. destruct (Rlt_dec (RN (y + z)) 1) as [C | C].
+      rewrite (Rmax_right x y O). unfold NilMaxRN. destruct (Rlt_dec (RN (y + z)) 1) as [C | C].
       * destruct (Rlt_dec (RN (x + z)) 1) as [B | B]; [reflexivity | exfalso; lra].
       * destruct (Rlt_dec (RN (x + z)) 1); reflexivity.
     + assert (M : RN (y + z) <= RN (x + z)) by (apply RN_le; lra).
-      unfold NilMaxRN. destruct (Rlt_dec (RN (x + z)) 1) as [B | B]; [| reflexivity].
+      rewrite (Rmax_left x y) by lra. unfold NilMaxRN. destruct (Rlt_dec (RN (x + z)) 1) as [B | B]; [| reflexivity].
       destruct (Rlt_dec (RN (y + z)) 1) as [C | C]; [reflexivity | exfalso; lra].
   - unfold NilMaxRN. destruct (Rlt_dec (RN (1 + z)) 1); [exfalso; lra | reflexivity].
 Qed.
@@ -797,3 +802,404 @@ Proof.
     (split; [apply unitb_ok; vm_compute; reflexivity |]);
     (split; [apply unitb_ok; vm_compute; reflexivity |]); apply fneq_ok; vm_compute; reflexivity.
 Qed.
+
+(* ------------------------------------------------------------------ 20. transport of the witness forms *)
+Lemma not_assocF_ext T T' : (forall a b, T' a b = T a b) -> not_assocF T -> not_assocF T'.
+Proof. intros E (a & b & c & H). exists a, b, c. rewrite !E. exact H. Qed.
+Lemma not_identF_ext T T' e : (forall a b, T' a b = T a b) -> not_identF T e -> not_identF T' e.
+Proof. intros E (a & H). exists a. rewrite !E. exact H. Qed.
+Lemma not_annihF_ext T T' z : (forall a b, T' a b = T a b) -> not_annihF T z -> not_annihF T' z.
+Proof. intros E (a & H). exists a. rewrite !E. exact H. Qed.
+Lemma not_le_minF_ext T T' : (forall a b, T' a b = T a b) -> not_le_minF T -> not_le_minF T'.
+Proof. intros E (a & b & H). exists a, b. rewrite !E. exact H. Qed.
+Lemma not_ge_maxF_ext T T' : (forall a b, T' a b = T a b) -> not_ge_maxF T -> not_ge_maxF T'.
+Proof. intros E (a & b & H). exists a, b. rewrite !E. exact H. Qed.
+Lemma not_mono2F_ext T T' : (forall a b, T' a b = T a b) -> not_mono2F T -> not_mono2F T'.
+Proof. intros E (a & b & c & H). exists a, b, c. rewrite !E. exact H. Qed.
+Lemma not_rangeF_ext T T' : (forall a b, T' a b = T a b) -> not_rangeF T -> not_rangeF T'.
+Proof. intros E (a & b & H). exists a, b. rewrite !E. exact H. Qed.
+Lemma not_dualF_ext S S' T T' : (forall a b, S' a b = S a b) -> (forall a b, T' a b = T a b) ->
+  not_dualF S T -> not_dualF S' T'.
+Proof. intros ES ET (a & b & H). exists a, b. rewrite !ES, !ET. exact H. Qed.
+Lemma tnorm_laws_F_ext T T' : (forall a b, T' a b = T a b) -> tnorm_laws_F T -> tnorm_laws_F T'.
+Proof.
+  intros E (H1 & H2 & H3 & H4 & H5 & H6 & H7).
+  exact (conj (rangeF_ext _ _ E H1) (conj (commF_ext _ _ E H2) (conj (mono2F_ext _ _ E H3)
+    (conj (assocF_ext _ _ E H4) (conj (identF_ext _ _ _ E H5) (conj (annihF_ext _ _ _ E H6) (le_minF_ext _ _ E H7))))))).
+Qed.
+Lemma snorm_laws_F_ext S S' : (forall a b, S' a b = S a b) -> snorm_laws_F S -> snorm_laws_F S'.
+Proof.
+  intros E (H1 & H2 & H3 & H4 & H5 & H6 & H7).
+  exact (conj (rangeF_ext _ _ E H1) (conj (commF_ext _ _ E H2) (conj (mono2F_ext _ _ E H3)
+    (conj (assocF_ext _ _ E H4) (conj (identF_ext _ _ _ E H5) (conj (annihF_ext _ _ _ E H6) (ge_maxF_ext _ _ E H7))))))).
+Qed.
+Lemma tnorm_laws_F_mono1 T : tnorm_laws_F T -> mono1F T.
+Proof. intros (_ & C & M & _). now apply mono2_mono1. Qed.
+Lemma snorm_laws_F_mono1 S : snorm_laws_F S -> mono1F S.
+Proof. intros (_ & C & M & _). now apply mono2_mono1. Qed.
+
+Theorem NilpotentMaximum_F_laws : snorm_laws_F NilpotentMaximum_F.
+Proof.
+  exact (conj NilpotentMaximum_F_range (conj NilpotentMaximum_F_comm (conj NilpotentMaximum_F_mono2
+    (conj NilpotentMaximum_F_assoc (conj NilpotentMaximum_F_ident (conj NilpotentMaximum_F_annih
+    NilpotentMaximum_F_ge_max)))))).
+Qed.
+
+(* ------------------------------------------------------------------ 22. finer analysis: the remaining range laws *)
+Lemma mul_ge_luk a b : unitF a -> unitF b -> R_of a + R_of b - 1 <= R_of (a * b)%float.
+Proof.
+  intros Ua Ub. destruct (mul_unit a b Ua Ub) as (_ & E & _). rewrite E.
+  apply RN_mul_ge_luk; try apply fmt_R_of; [apply Ua | apply Ub].
+Qed.
+
+Lemma HamacherProduct_F_range : rangeF HamacherProduct_F.
+Proof.
+  startF. fadd a b in 0 2 as Fs Es Bs.
+  destruct (mul_unit a b ltac:(split; assumption) ltac:(split; assumption)) as ([Fp Bp] & Ep & Pa & Pb).
+  fcase_eqb (a + b)%float 0%float as H; simpl negb; cbv iota; [apply unitF_zero |].
+  assert (S2 : 2 * Rmin (R_of a) (R_of b) <= R_of (a + b)%float).
+  { rewrite Es. apply RN_ge; [apply fmt_double; fmt_tac | splitmm; lra]. }
+  assert (Pm : R_of (a * b)%float <= Rmin (R_of a) (R_of b)) by (splitmm; lra).
+  fsub (a + b)%float (a * b)%float in 0 2 as Ft Et Bt.
+  assert (Tp : R_of (a * b)%float <= R_of (a + b - a * b)%float).
+  { rewrite Et. apply RN_ge; [apply fmt_R_of | lra]. }
+  assert (Tpos : 0 < R_of (a + b - a * b)%float).
+  { destruct (Req_dec (R_of (a * b)%float) 0) as [Z | Z]; [| lra].
+    rewrite Et, Z, Rminus_0_r, (RN_id _ (fmt_R_of _)). lra. }
+  apply (div_unit _ _ Fp Ft); [lra | exact Tpos].
+Qed.
+
+Lemma EinsteinSum_F_range : rangeF EinsteinSum_F.
+Proof.
+  intros a b Ua Ub. pose proof (mul_ge_luk a b Ua Ub) as K. revert Ua Ub. startF.
+  fadd a b in 0 2 as Fs Es Bs. fmul a b in 0 1 as Fp Ep Bp.
+  fadd 1%float (a * b)%float in 1 2 as Fd Ed Bd.
+  assert (L : R_of (a + b)%float <= R_of (1 + a * b)%float) by (rewrite Es, Ed; apply RN_le; lra).
+  apply (div_unit _ _ Fs Fd); lra.
+Qed.
+
+(* the common core  t = RN(RN(a+b) - RN(a*b))  of AlgebraicSum / EinsteinProduct / HamacherProduct lies in [0,1] *)
+Lemma AlgebraicSum_F_range : rangeF AlgebraicSum_F.
+Proof.
+  intros a b Ua Ub. pose proof (mul_ge_luk a b Ua Ub) as K.
+  destruct (add_unit a b Ua Ub) as (Fs & Es & Bs).
+  destruct (mul_unit a b Ua Ub) as ([Fp Bp] & Ep & Pa & Pb).
+  revert Ua Ub. startF.
+  assert (Pm : R_of (a * b)%float <= Rmax (R_of a) (R_of b)) by (splitmm; lra).
+  fsub (a + b)%float (a * b)%float in 0 2 as Ft Et Bt.
+  split; [exact Ft |]. split; [lra |].
+  assert (Y : 1 <= 1 + R_of (a * b)%float <= 2) by lra.
+  pose proof (RN_err_12 _ Y) as Err. apply Rabs_le_inv in Err.
+  assert (L : R_of (a + b)%float <= RN (1 + R_of (a * b)%float)) by (rewrite Es; apply RN_le; lra).
+  rewrite Et, <- RN_1_plus_half_ulp. apply RN_le. lra.
+Qed.
+
+Lemma EinsteinProduct_F_core a b : unitF a -> unitF b ->
+  fin (EinsteinProduct_F a b) /\ 0 <= R_of (EinsteinProduct_F a b) <= R_of (a * b)%float.
+Proof.
+  intros Ua Ub. destruct (AlgebraicSum_F_range a b Ua Ub) as [Ft Bt]. unfold AlgebraicSum_F in Ft, Bt.
+  destruct (mul_unit a b Ua Ub) as ([Fp Bp] & Ep & Pa & Pb).
+  revert Ua Ub. startF.
+  fsub 2%float (a + b - a * b)%float in 1 2 as Fd Ed Bd.
+  assert (Q : 0 <= R_of (a * b)%float / R_of (2 - (a + b - a * b))%float <= R_of (a * b)%float).
+  { split; [apply Rmult_le_pos; [lra | left; apply Rinv_0_lt_compat; lra] |].
+    apply Rmult_le_reg_r with (R_of (2 - (a + b - a * b))%float); [lra |].
+    unfold Rdiv. rewrite Rmult_assoc, Rinv_l by lra. nra. }
+  assert (S : safe (R_of (a * b)%float / R_of (2 - (a + b - a * b))%float)) by (apply safe_4; lra).
+  destruct (div_RN _ _ Fp Fd ltac:(lra) S) as [F E]. split; [exact F |]. rewrite E.
+  apply RN_bounds; [apply fmt_0 | apply fmt_R_of | exact Q].
+Qed.
+Lemma EinsteinProduct_F_range : rangeF EinsteinProduct_F.
+Proof.
+  intros a b Ua Ub. destruct (EinsteinProduct_F_core a b Ua Ub) as [F B].
+  destruct (mul_unit a b Ua Ub) as ([_ Bp] & _). split; [exact F | lra].
+Qed.
+Lemma EinsteinProduct_F_le_min : le_minF EinsteinProduct_F.
+Proof.
+  intros a b Ua Ub. destruct (EinsteinProduct_F_core a b Ua Ub) as [F B].
+  destruct (mul_unit a b Ua Ub) as (_ & _ & Pa & Pb). splitmm; lra.
+Qed.
+Lemma EinsteinProduct_F_ident : identF EinsteinProduct_F 1.
+Proof.
+  intros a Ua. destruct (AlgebraicSum_F_range a 1%float Ua unitF_one) as [Ft Bt]. unfold AlgebraicSum_F in Ft, Bt.
+  revert Ua. startF. destruct (mul_1_r a ltac:(fin_tac)) as [Fp Ep].
+  fadd a 1%float in 1 2 as Fs Es Bs.
+  assert (Y : 1 <= R_of a + 1 <= 2) by lra.
+  pose proof (RN_err_12 _ Y) as Err. apply Rabs_le_inv in Err. pose proof bpow_m53_small as Sm.
+  assert (S : safe (R_of (a + 1)%float - R_of (a * 1)%float)) by (apply safe_4; lra).
+  destruct (sub_RN _ _ Fs Fp S) as [_ Et].
+  assert (Tl : 1 - bpow radix2 (-53) <= R_of (a + 1 - a * 1)%float).
+  { rewrite Et. apply RN_ge; [apply fmt_pred1 |]. rewrite Es, Lit1. lra. }
+  fsub 2%float (a + 1 - a * 1)%float in 1 2 as Fd Ed Bd.
+  assert (D1 : R_of (2 - (a + 1 - a * 1))%float = 1).
+  { apply Rle_antisym; [| lra]. rewrite Ed, <- RN_1_plus_half_ulp. apply RN_le. lra. }
+  destruct (div_R1 _ _ Fp Fd D1) as [F E]. split; [exact F | lra].
+Qed.
+
+(* the real value of a quotient of finite floats depends only on the real values of the operands
+   (also when the operation overflows: both results are then infinite, with real value 0) *)
+Lemma SF2R_overflow s : SF2R radix2 (binary_overflow prec emax mode_NE s) = 0.
+Proof. destruct s; reflexivity. Qed.
+
+Lemma div_R_congr n1 n2 d : fin n1 -> fin n2 -> fin d -> R_of n1 = R_of n2 -> R_of d <> 0 ->
+  R_of (n1 / d)%float = R_of (n2 / d)%float.
+Proof.
+  unfold fin, R_of. intros F1 F2 Fd E Z. rewrite !div_equiv.
+  generalize (Bdiv_correct prec emax Hprec Hmax mode_NE (Prim2B n1) (Prim2B d) Z)
+             (Bdiv_correct prec emax Hprec Hmax mode_NE (Prim2B n2) (Prim2B d) Z).
+  rewrite E. destruct (Rlt_bool _ _).
+  - intros (E1 & _) (E2 & _). now rewrite E1, E2.
+  - intros E1 E2. rewrite <- !SF2R_B2SF, E1, E2, !SF2R_overflow. reflexivity.
+Qed.
+Lemma HamacherSum_F_comm : commF HamacherSum_F.
+Proof.
+  startF. rewrite (mul_comm_f b a), (add_comm_f b a).
+  fmul a b in 0 1 as Fp Ep Bp.
+  fcase_eqb (a * b)%float 1%float as H; simpl negb; cbv iota; [reflexivity |].
+  fadd a b in 0 2 as Fs Es Bs.
+  (* 2*a and 2*b are exact *)
+  assert (Da : fin (2 * a)%float /\ R_of (2 * a)%float = 2 * R_of a).
+  { fmul 2%float a in 0 2 as F E B. split; [exact F |]. rewrite E, Lit2. apply RN_id, fmt_double, fmt_R_of. }
+  assert (Db : fin (2 * b)%float /\ R_of (2 * b)%float = 2 * R_of b).
+  { fmul 2%float b in 0 2 as F E B. split; [exact F |]. rewrite E, Lit2. apply RN_id, fmt_double, fmt_R_of. }
+  destruct Da as [Fa2 Ea2], Db as [Fb2 Eb2].
+  fmul (2 * a)%float b in 0 2 as Fq1 Eq1 Bq1. fmul (2 * b)%float a in 0 2 as Fq2 Eq2 Bq2.
+  assert (Eq : R_of (2 * a * b)%float = R_of (2 * b * a)%float).
+  { rewrite Eq1, Eq2, Ea2, Eb2. f_equal. ring. }
+  fsub (a + b)%float (2 * a * b)%float in (-2) 2 as Fn1 En1 Bn1.
+  fsub (a + b)%float (2 * b * a)%float in (-2) 2 as Fn2 En2 Bn2.
+  assert (En : R_of (a + b - 2 * a * b)%float = R_of (a + b - 2 * b * a)%float) by (rewrite En1, En2, Eq; reflexivity).
+  destruct (sub_pos 1%float (a * b)%float fin_one Fp ltac:(apply safe_4; lra) ltac:(lra)) as (Fd & Pd & _).
+  apply div_R_congr; try assumption. lra.
+Qed.
+
+(* ------------------------------------------------------------------ 21. the statements on the GENERATED kernels at NumF m tbl *)
+Lemma mono1_of T : commF T -> mono2F T -> mono1F T.
+Proof. apply mono2_mono1. Qed.
+
+Section Final.
+  Variables (m : bool) (tbl : oracle).
+  Local Notation NF := (NumF m tbl).
+
+  (* -- the seven T-norms *)
+  Theorem AlgebraicProduct_float : let T := @AlgebraicProduct_compute _ NF in
+    rangeF T /\ commL T /\ mono1F T /\ mono2F T /\ identF T 1 /\ annihF T 0 /\ le_minF T.
+  Proof.
+    pose proof (AlgebraicProduct_Feq m tbl) as E.
+    exact (conj (rangeF_ext _ _ E AlgebraicProduct_F_range) (conj (commL_ext _ _ E AlgebraicProduct_F_commL)
+      (conj (mono1F_ext _ _ E (mono1_of _ (commL_commF _ AlgebraicProduct_F_commL) AlgebraicProduct_F_mono2))
+      (conj (mono2F_ext _ _ E AlgebraicProduct_F_mono2) (conj (identF_ext _ _ _ E AlgebraicProduct_F_ident)
+      (conj (annihF_ext _ _ _ E AlgebraicProduct_F_annih) (le_minF_ext _ _ E AlgebraicProduct_F_le_min))))))).
+  Qed.
+  Theorem AlgebraicProduct_assoc_refuted : not_assocF (@AlgebraicProduct_compute _ NF).
+  Proof. exact (not_assocF_ext _ _ (AlgebraicProduct_Feq m tbl) AlgebraicProduct_F_assoc_refuted). Qed.
+
+  Theorem BoundedDifference_float : let T := @BoundedDifference_compute _ NF in
+    rangeF T /\ commL T /\ mono1F T /\ mono2F T /\ annihF T 0.
+  Proof.
+    pose proof (BoundedDifference_Feq m tbl) as E.
+    exact (conj (rangeF_ext _ _ E BoundedDifference_F_range) (conj (commL_ext _ _ E BoundedDifference_F_commL)
+      (conj (mono1F_ext _ _ E (mono1_of _ (commL_commF _ BoundedDifference_F_commL) BoundedDifference_F_mono2))
+      (conj (mono2F_ext _ _ E BoundedDifference_F_mono2) (annihF_ext _ _ _ E BoundedDifference_F_annih))))).
+  Qed.
+  Theorem BoundedDifference_refuted : let T := @BoundedDifference_compute _ NF in
+    not_identF T 1 /\ not_le_minF T /\ not_assocF T.
+  Proof.
+    pose proof (BoundedDifference_Feq m tbl) as E.
+    exact (conj (not_identF_ext _ _ _ E BoundedDifference_F_ident_refuted)
+      (conj (not_le_minF_ext _ _ E BoundedDifference_F_le_min_refuted)
+            (not_assocF_ext _ _ E BoundedDifference_F_assoc_refuted))).
+  Qed.
+
+  Theorem DrasticProduct_float : let T := @DrasticProduct_compute _ NF in tnorm_laws_F T /\ mono1F T.
+  Proof.
+    pose proof (tnorm_laws_F_ext _ _ (DrasticProduct_Feq m tbl) DrasticProduct_F_laws) as L.
+    exact (conj L (tnorm_laws_F_mono1 _ L)).
+  Qed.
+
+  Theorem EinsteinProduct_float : let T := @EinsteinProduct_compute _ NF in
+    rangeF T /\ commL T /\ identF T 1 /\ annihF T 0 /\ le_minF T.
+  Proof.
+    pose proof (EinsteinProduct_Feq m tbl) as E.
+    exact (conj (rangeF_ext _ _ E EinsteinProduct_F_range) (conj (commL_ext _ _ E EinsteinProduct_F_commL)
+      (conj (identF_ext _ _ _ E EinsteinProduct_F_ident) (conj (annihF_ext _ _ _ E EinsteinProduct_F_annih)
+      (le_minF_ext _ _ E EinsteinProduct_F_le_min))))).
+  Qed.
+  Theorem EinsteinProduct_refuted : let T := @EinsteinProduct_compute _ NF in not_mono2F T /\ not_assocF T.
+  Proof.
+    pose proof (EinsteinProduct_Feq m tbl) as E.
+    exact (conj (not_mono2F_ext _ _ E EinsteinProduct_F_mono2_refuted)
+                (not_assocF_ext _ _ E EinsteinProduct_F_assoc_refuted)).
+  Qed.
+
+  Theorem HamacherProduct_float : let T := @HamacherProduct_compute _ NF in
+    rangeF T /\ commL T /\ annihF T 0.
+  Proof.
+    pose proof (HamacherProduct_Feq m tbl) as E.
+    exact (conj (rangeF_ext _ _ E HamacherProduct_F_range) (conj (commL_ext _ _ E HamacherProduct_F_commL)
+      (annihF_ext _ _ _ E HamacherProduct_F_annih))).
+  Qed.
+  Theorem HamacherProduct_refuted : let T := @HamacherProduct_compute _ NF in
+    not_identF T 1 /\ not_le_minF T /\ not_mono2F T /\ not_assocF T.
+  Proof.
+    pose proof (HamacherProduct_Feq m tbl) as E.
+    exact (conj (not_identF_ext _ _ _ E HamacherProduct_F_ident_refuted)
+      (conj (not_le_minF_ext _ _ E HamacherProduct_F_le_min_refuted)
+      (conj (not_mono2F_ext _ _ E HamacherProduct_F_mono2_refuted)
+            (not_assocF_ext _ _ E HamacherProduct_F_assoc_refuted)))).
+  Qed.
+
+  Theorem Minimum_float : let T := @Minimum_compute _ NF in tnorm_laws_F T /\ mono1F T.
+  Proof.
+    pose proof (tnorm_laws_F_ext _ _ (Minimum_Feq m tbl) Minimum_F_laws) as L.
+    exact (conj L (tnorm_laws_F_mono1 _ L)).
+  Qed.
+
+  Theorem NilpotentMinimum_float : let T := @NilpotentMinimum_compute _ NF in
+    rangeF T /\ commF T /\ mono1F T /\ mono2F T /\ assocF T /\ annihF T 0 /\ le_minF T.
+  Proof.
+    pose proof (NilpotentMinimum_Feq m tbl) as E.
+    exact (conj (rangeF_ext _ _ E NilpotentMinimum_F_range) (conj (commF_ext _ _ E NilpotentMinimum_F_comm)
+      (conj (mono1F_ext _ _ E (mono1_of _ NilpotentMinimum_F_comm NilpotentMinimum_F_mono2))
+      (conj (mono2F_ext _ _ E NilpotentMinimum_F_mono2) (conj (assocF_ext _ _ E NilpotentMinimum_F_assoc)
+      (conj (annihF_ext _ _ _ E NilpotentMinimum_F_annih) (le_minF_ext _ _ E NilpotentMinimum_F_le_min))))))).
+  Qed.
+  Theorem NilpotentMinimum_ident_refuted : not_identF (@NilpotentMinimum_compute _ NF) 1.
+  Proof. exact (not_identF_ext _ _ _ (NilpotentMinimum_Feq m tbl) NilpotentMinimum_F_ident_refuted). Qed.
+
+  (* -- the nine S-norms *)
+  Theorem AlgebraicSum_float : let S := @AlgebraicSum_compute _ NF in rangeF S /\ commL S /\ identF S 0.
+  Proof.
+    pose proof (AlgebraicSum_Feq m tbl) as E.
+    exact (conj (rangeF_ext _ _ E AlgebraicSum_F_range) (conj (commL_ext _ _ E AlgebraicSum_F_commL)
+      (identF_ext _ _ _ E AlgebraicSum_F_ident))).
+  Qed.
+  Theorem AlgebraicSum_refuted : let S := @AlgebraicSum_compute _ NF in
+    not_annihF S 1 /\ not_ge_maxF S /\ not_mono2F S /\ not_assocF S.
+  Proof.
+    pose proof (AlgebraicSum_Feq m tbl) as E.
+    exact (conj (not_annihF_ext _ _ _ E AlgebraicSum_F_annih_refuted)
+      (conj (not_ge_maxF_ext _ _ E AlgebraicSum_F_ge_max_refuted)
+      (conj (not_mono2F_ext _ _ E AlgebraicSum_F_mono2_refuted)
+            (not_assocF_ext _ _ E AlgebraicSum_F_assoc_refuted)))).
+  Qed.
+
+  Theorem BoundedSum_float : let S := @BoundedSum_compute _ NF in
+    rangeF S /\ commL S /\ mono1F S /\ mono2F S /\ identF S 0 /\ annihF S 1 /\ ge_maxF S.
+  Proof.
+    pose proof (BoundedSum_Feq m tbl) as E.
+    exact (conj (rangeF_ext _ _ E BoundedSum_F_range) (conj (commL_ext _ _ E BoundedSum_F_commL)
+      (conj (mono1F_ext _ _ E (mono1_of _ (commL_commF _ BoundedSum_F_commL) BoundedSum_F_mono2))
+      (conj (mono2F_ext _ _ E BoundedSum_F_mono2) (conj (identF_ext _ _ _ E BoundedSum_F_ident)
+      (conj (annihF_ext _ _ _ E BoundedSum_F_annih) (ge_maxF_ext _ _ E BoundedSum_F_ge_max))))))).
+  Qed.
+  Theorem BoundedSum_assoc_refuted : not_assocF (@BoundedSum_compute _ NF).
+  Proof. exact (not_assocF_ext _ _ (BoundedSum_Feq m tbl) BoundedSum_F_assoc_refuted). Qed.
+
+  Theorem DrasticSum_float : let S := @DrasticSum_compute _ NF in snorm_laws_F S /\ mono1F S.
+  Proof.
+    pose proof (snorm_laws_F_ext _ _ (DrasticSum_Feq m tbl) DrasticSum_F_laws) as L.
+    exact (conj L (snorm_laws_F_mono1 _ L)).
+  Qed.
+
+  Theorem EinsteinSum_float : let S := @EinsteinSum_compute _ NF in
+    rangeF S /\ commL S /\ identF S 0 /\ annihF S 1.
+  Proof.
+    pose proof (EinsteinSum_Feq m tbl) as E.
+    exact (conj (rangeF_ext _ _ E EinsteinSum_F_range) (conj (commL_ext _ _ E EinsteinSum_F_commL)
+      (conj (identF_ext _ _ _ E EinsteinSum_F_ident) (annihF_ext _ _ _ E EinsteinSum_F_annih)))).
+  Qed.
+  Theorem EinsteinSum_refuted : let S := @EinsteinSum_compute _ NF in
+    not_ge_maxF S /\ not_mono2F S /\ not_assocF S.
+  Proof.
+    pose proof (EinsteinSum_Feq m tbl) as E.
+    exact (conj (not_ge_maxF_ext _ _ E EinsteinSum_F_ge_max_refuted)
+      (conj (not_mono2F_ext _ _ E EinsteinSum_F_mono2_refuted)
+            (not_assocF_ext _ _ E EinsteinSum_F_assoc_refuted))).
+  Qed.
+
+  Theorem HamacherSum_float : let S := @HamacherSum_compute _ NF in commF S /\ identF S 0.
+  Proof.
+    pose proof (HamacherSum_Feq m tbl) as E.
+    exact (conj (commF_ext _ _ E HamacherSum_F_comm) (identF_ext _ _ _ E HamacherSum_F_ident)).
+  Qed.
+  Theorem HamacherSum_refuted : let S := @HamacherSum_compute _ NF in
+    not_rangeF S /\ not_annihF S 1 /\ not_ge_maxF S /\ not_mono2F S /\ not_assocF S.
+  Proof.
+    pose proof (HamacherSum_Feq m tbl) as E.
+    exact (conj (not_rangeF_ext _ _ E HamacherSum_F_range_refuted)
+      (conj (not_annihF_ext _ _ _ E HamacherSum_F_annih_refuted)
+      (conj (not_ge_maxF_ext _ _ E HamacherSum_F_ge_max_refuted)
+      (conj (not_mono2F_ext _ _ E HamacherSum_F_mono2_refuted)
+            (not_assocF_ext _ _ E HamacherSum_F_assoc_refuted))))).
+  Qed.
+
+  Theorem Maximum_float : let S := @Maximum_compute _ NF in snorm_laws_F S /\ mono1F S.
+  Proof.
+    pose proof (snorm_laws_F_ext _ _ (Maximum_Feq m tbl) Maximum_F_laws) as L.
+    exact (conj L (snorm_laws_F_mono1 _ L)).
+  Qed.
+
+  Theorem NilpotentMaximum_float : let S := @NilpotentMaximum_compute _ NF in snorm_laws_F S /\ mono1F S.
+  Proof.
+    pose proof (snorm_laws_F_ext _ _ (NilpotentMaximum_Feq m tbl) NilpotentMaximum_F_laws) as L.
+    exact (conj L (snorm_laws_F_mono1 _ L)).
+  Qed.
+
+  Theorem NormalizedSum_float : let S := @NormalizedSum_compute _ NF in
+    rangeF S /\ commL S /\ mono1F S /\ mono2F S /\ identF S 0 /\ annihF S 1 /\ ge_maxF S.
+  Proof.
+    pose proof (NormalizedSum_Feq m tbl) as E.
+    exact (conj (rangeF_ext _ _ E NormalizedSum_F_range) (conj (commL_ext _ _ E NormalizedSum_F_commL)
+      (conj (mono1F_ext _ _ E (mono1_of _ (commL_commF _ NormalizedSum_F_commL) NormalizedSum_F_mono2))
+      (conj (mono2F_ext _ _ E NormalizedSum_F_mono2) (conj (identF_ext _ _ _ E NormalizedSum_F_ident)
+      (conj (annihF_ext _ _ _ E NormalizedSum_F_annih) (ge_maxF_ext _ _ E NormalizedSum_F_ge_max))))))).
+  Qed.
+  (* in binary64, too, NormalizedSum computes exactly what BoundedSum computes *)
+  Theorem NormalizedSum_is_BoundedSum_float : forall a b, unitF a -> unitF b ->
+    fin (@NormalizedSum_compute _ NF a b) /\
+    R_of (@NormalizedSum_compute _ NF a b) = R_of (@BoundedSum_compute _ NF a b).
+  Proof.
+    intros a b Ua Ub. rewrite NormalizedSum_Feq, BoundedSum_Feq. now apply NormalizedSum_F_BoundedSum.
+  Qed.
+  Theorem NormalizedSum_assoc_refuted : not_assocF (@NormalizedSum_compute _ NF).
+  Proof. exact (not_assocF_ext _ _ (NormalizedSum_Feq m tbl) NormalizedSum_F_assoc_refuted). Qed.
+
+  Theorem UnboundedSum_float : let S := @UnboundedSum_compute _ NF in
+    (forall a b, unitF a -> unitF b -> fin (S a b) /\ 0 <= R_of (S a b) <= 2) /\
+    commL S /\ mono1F S /\ mono2F S /\ identF S 0 /\ ge_maxF S.
+  Proof.
+    pose proof (UnboundedSum_Feq m tbl) as E.
+    refine (conj _ (conj (commL_ext _ _ E UnboundedSum_F_commL)
+      (conj (mono1F_ext _ _ E (mono1_of _ (commL_commF _ UnboundedSum_F_commL) UnboundedSum_F_mono2))
+      (conj (mono2F_ext _ _ E UnboundedSum_F_mono2) (conj (identF_ext _ _ _ E UnboundedSum_F_ident)
+      (ge_maxF_ext _ _ E UnboundedSum_F_ge_max)))))).
+    intros a b Ua Ub. rewrite E. now apply UnboundedSum_F_range2.
+  Qed.
+  Theorem UnboundedSum_refuted : let S := @UnboundedSum_compute _ NF in not_rangeF S /\ not_assocF S.
+  Proof.
+    pose proof (UnboundedSum_Feq m tbl) as E.
+    exact (conj (not_rangeF_ext _ _ E UnboundedSum_F_range_refuted)
+                (not_assocF_ext _ _ E UnboundedSum_F_assoc_refuted)).
+  Qed.
+
+  (* -- De Morgan duality fails for each of the seven pairs *)
+  Theorem dual_refuted :
+    not_dualF (@AlgebraicSum_compute _ NF) (@AlgebraicProduct_compute _ NF) /\
+    not_dualF (@BoundedSum_compute _ NF) (@BoundedDifference_compute _ NF) /\
+    not_dualF (@DrasticSum_compute _ NF) (@DrasticProduct_compute _ NF) /\
+    not_dualF (@EinsteinSum_compute _ NF) (@EinsteinProduct_compute _ NF) /\
+    not_dualF (@HamacherSum_compute _ NF) (@HamacherProduct_compute _ NF) /\
+    not_dualF (@Maximum_compute _ NF) (@Minimum_compute _ NF) /\
+    not_dualF (@NilpotentMaximum_compute _ NF) (@NilpotentMinimum_compute _ NF).
+  Proof.
+    destruct dual_refuted_all as (D1 & D2 & D3 & D4 & D5 & D6 & D7).
+    exact (conj (not_dualF_ext _ _ _ _ (AlgebraicSum_Feq m tbl) (AlgebraicProduct_Feq m tbl) D1)
+      (conj (not_dualF_ext _ _ _ _ (BoundedSum_Feq m tbl) (BoundedDifference_Feq m tbl) D2)
+      (conj (not_dualF_ext _ _ _ _ (DrasticSum_Feq m tbl) (DrasticProduct_Feq m tbl) D3)
+      (conj (not_dualF_ext _ _ _ _ (EinsteinSum_Feq m tbl) (EinsteinProduct_Feq m tbl) D4)
+      (conj (not_dualF_ext _ _ _ _ (HamacherSum_Feq m tbl) (HamacherProduct_Feq m tbl) D5)
+      (conj (not_dualF_ext _ _ _ _ (Maximum_Feq m tbl) (Minimum_Feq m tbl) D6)
+            (not_dualF_ext _ _ _ _ (NilpotentMaximum_Feq m tbl) (NilpotentMinimum_Feq m tbl) D7))))))).
+  Qed.
+End Final.
